@@ -360,7 +360,23 @@ def run_path(shape, path):
 def run_shard(d):
     # forked workers share the parent's heap copy-on-write; keep the cyclic GC from touching (= copying) it
     gc.freeze()
-    shape, mode, L = d['shape'], d['mode'], d['L']
+    R = _walk(d, d['L'])
+    if R['violations'] and not d.get('min_len'):
+        # shorten the counterexamples: the same walk with smaller cycle bounds, shortest bound that shows each sig wins
+        todo = {v['sig'] for v in R['violations']}
+        short = {}
+        for Ls in range(0, d['L']):
+            for v in _walk(d, Ls)['violations']:
+                if v['sig'] in todo and v['sig'] not in short:
+                    short[v['sig']] = v
+            if len(short) == len(todo):
+                break
+        R['violations'] = [short.get(v['sig'], v) for v in R['violations']]
+    return R
+
+
+def _walk(d, L):
+    shape, mode = d['shape'], d['mode']
     min_len = d.get('min_len', 0)
     prefix = d['prefix']
     try:
